@@ -551,6 +551,9 @@ struct Local {
     exhaustive_docs: u64,
     types: BTreeMap<&'static str, u64>,
     compositions: u64,
+    nil_seed: Option<u64>,
+    nil_bases: u64,
+    nil_bases_rejected: u64,
 }
 
 /// one step = (rewrite kind index, site, variant)
@@ -563,6 +566,75 @@ pub fn rewrite_doc(xml: &str, steps: &Steps) -> Option<String> {
         t = apply(&t, REWRITES[*k % REWRITES.len()], *site, &mut c, *variant)?;
     }
     Some(render(&t))
+}
+
+/// Optional child elements per type (name, what a hand-written document may put there instead of leaving
+/// the element out): the element with `xsi:nil="true"`, whose content has to be ignored.
+const NIL_FIELDS: &[(&str, &[(&str, &[&str])])] = &[
+    ("Opt", &[("t_a", &["", "ignored", "<zz/>ignored"]), ("t_b", &["", "7", "<t_b>1</t_b>"]), ("s_c", &["", "<t_x>q</t_x>", "<s_c><zz/></s_c>tail"])]),
+    ("OptTextEl", &[("t_a", &["", "ignored"])]),
+    ("NamePrefix", &[("t_nxyz", &["", "ignored", "<t_n>x</t_n>"])]),
+];
+
+/// A hand-written presentation of the serializer's output: every optional child element that is absent
+/// may instead be present with `xsi:nil="true"` (prefix declared on the root). The caller accepts it as a
+/// base document only if it still deserializes to the original value.
+pub fn nil_base(type_name: &str, xml: &str, seed: u64) -> Option<String> {
+    let fields = NIL_FIELDS.iter().find(|(t, _)| *t == type_name)?.1;
+    let toks = tokenize(xml.as_bytes(), CFG_NEUTRAL);
+    let first = toks.first()?;
+    if !matches!(first.obs, Obs::Ev(Kind::Start, _, _)) {
+        return None;
+    }
+    let mut r = Rng::new(seed);
+    // boundaries between the children of the root, and the names present
+    let mut points: Vec<usize> = vec![first.after as usize];
+    let mut present: Vec<Vec<u8>> = Vec::new();
+    let mut depth = 0;
+    for t in &toks {
+        match &t.obs {
+            Obs::Ev(Kind::Start, _, n) => {
+                if depth == 1 {
+                    present.push(n.clone());
+                }
+                depth += 1;
+            }
+            Obs::Ev(Kind::Empty, _, n) => {
+                if depth == 1 {
+                    present.push(n.clone());
+                    points.push(t.after as usize);
+                }
+            }
+            Obs::Ev(Kind::End, _, _) => {
+                depth -= 1;
+                if depth == 1 {
+                    points.push(t.after as usize);
+                }
+            }
+            _ => {}
+        }
+    }
+    let mut inserts: Vec<(usize, String)> = Vec::new();
+    for (name, contents) in fields {
+        if present.iter().any(|p| p == name.as_bytes()) || r.below(4) == 0 {
+            continue;
+        }
+        let c = contents[r.below(contents.len())];
+        let el = if c.is_empty() && r.bool() { format!("<{} xsi:nil=\"true\"/>", name) } else { format!("<{} xsi:nil=\"true\">{}</{}>", name, c, name) };
+        inserts.push((points[r.below(points.len())], el));
+    }
+    if inserts.is_empty() {
+        return None;
+    }
+    inserts.sort_by(|a, b| b.0.cmp(&a.0));
+    let mut out = xml.to_string();
+    for (at, el) in inserts {
+        out.insert_str(at, &el);
+    }
+    // the declaration goes into the root's start tag
+    let gt = first.after as usize - 1;
+    out.insert_str(gt, " xmlns:xsi=\"http://www.w3.org/2001/XMLSchema-instance\"");
+    Some(out)
 }
 
 pub fn check(ops: &TypeOps, v: &dyn Val, xml: &str, steps: &Steps) -> Result<bool, String> {
@@ -584,7 +656,7 @@ pub fn check(ops: &TypeOps, v: &dyn Val, xml: &str, steps: &Steps) -> Result<boo
 }
 
 fn run_case(ctx: &mut Ctx, loc: &mut Local, ops: &TypeOps, v: &dyn Val, vseed: u64, cfg: &SerCfg, xml: &str, steps: &Steps) -> bool {
-    let case = json!({"type": ops.name, "value_seed": vseed, "cfg": cfg.to_json(), "steps": steps, "rewrites": steps.iter().map(|s| REWRITES[s.0 % REWRITES.len()]).collect::<Vec<_>>()});
+    let case = json!({"type": ops.name, "value_seed": vseed, "cfg": cfg.to_json(), "nil_seed": loc.nil_seed, "steps": steps, "rewrites": steps.iter().map(|s| REWRITES[s.0 % REWRITES.len()]).collect::<Vec<_>>()});
     ctx.journal(|| case.clone());
     let res = guarded(|| check(ops, v, xml, steps));
     let res = match res {
@@ -632,6 +704,26 @@ fn run(ctx: &mut Ctx) {
         let xml = match v.ser(cfg) {
             Ok(x) => x,
             Err(_) => continue,
+        };
+        // now and then the base document is a hand-written presentation: absent optional elements are
+        // present with xsi:nil="true" (accepted only if it still gives the value)
+        loc.nil_seed = None;
+        let xml = if k % 3 == 0 && NIL_FIELDS.iter().any(|(t, _)| *t == ops.name) {
+            let ns = r.next();
+            match nil_base(ops.name, &xml, ns) {
+                Some(b) if matches!(guarded(|| (ops.de_str)(&b, None)), Ok(Ok(x)) if x.eq_val(v.as_ref())) => {
+                    loc.nil_seed = Some(ns);
+                    loc.nil_bases += 1;
+                    b
+                }
+                Some(_) => {
+                    loc.nil_bases_rejected += 1;
+                    xml
+                }
+                None => xml,
+            }
+        } else {
+            xml
         };
         let toks = match tokens(&xml) {
             Some(t) => t,
@@ -681,6 +773,8 @@ fn run(ctx: &mut Ctx) {
         ctx.add(&format!("rewrite.{}", k), loc.applied.get(k).copied().unwrap_or(0));
     }
     ctx.add("exhaustive_site_docs", loc.exhaustive_docs);
+    ctx.add("base_documents_with_xsi_nil_elements", loc.nil_bases);
+    ctx.add("base_documents_with_xsi_nil_elements_rejected_not_the_same_value", loc.nil_bases_rejected);
     ctx.add("compositions", loc.compositions);
     for o in &fam {
         ctx.add(&format!("type.{}", o.name), loc.types.get(o.name).copied().unwrap_or(0));
@@ -693,7 +787,10 @@ fn replay(case: &Value, _ctx: &mut Ctx) -> Option<String> {
     let vseed = case["value_seed"].as_u64().unwrap_or(0);
     let v = (ops.gen.unwrap())(&mut Rng::new(vseed));
     let cfg = SerCfg::from_json(&case["cfg"]);
-    let xml = v.ser(&cfg).ok()?;
+    let mut xml = v.ser(&cfg).ok()?;
+    if let Some(ns) = case["nil_seed"].as_u64() {
+        xml = nil_base(ops.name, &xml, ns)?;
+    }
     let steps: Steps = case["steps"].as_array()?.iter().map(|s| (s[0].as_u64().unwrap_or(0) as usize, s[1].as_u64().unwrap_or(0) as usize, s[2].as_u64().unwrap_or(0))).collect();
     check(ops, v.as_ref(), &xml, &steps).err()
 }
